@@ -29,7 +29,7 @@ def run_model(ev, part, cfg, binaries, p, walks=0, walk_len=0, shards=1, tlc_tim
     r = vf.tlc("MC_PersistenceMatrix", cfg, workers=1, timeout=tlc_timeout)
     if r.violation:
         return r, None, None, None, None
-    g = vf.StateGraph.from_tlc(r.outfile, init_id={"f": []})
+    g = vf.StateGraph.from_tlc(r.outfile, init_id={"f": [], "h": {"rem": False, "swp": False}})
     ev.add_tlc(part, r, {"graph_states": len(g.obs), "graph_edges": g.nedges, "transitions_by_action": vf.by_action(g), "cfg": cfg})
     work = os.path.join(vf.BUILD, "work", "%s_%s_%d" % (ev.prop, part, os.getpid()))
     rnd = random.Random(vf.seed())
